@@ -297,7 +297,7 @@ class _check_value_base:
                 return ""
             return words[0].where_str()
 
-        if self.value_min is not None and value < self.value_min:
+        if self.value_min is not None and not (value >= self.value_min):
             raise RuntimeError(
                 "%s element is less than the minimum allowed value:"
                 " %s < %s%s"
@@ -308,7 +308,7 @@ class _check_value_base:
                     where_str(),
                 )
             )
-        if self.value_max is not None and value > self.value_max:
+        if self.value_max is not None and not (value <= self.value_max):
             raise RuntimeError(
                 "%s element is greater than the maximum allowed value:"
                 " %s > %s%s"
